@@ -21,6 +21,13 @@ import (
 type HCParams struct {
 	Mode     string `json:"mode"`      // patterns | stop | calls
 	SlowFail bool   `json:"slow_fail"` // failing pings take 1.5 s instead of 0.2 s
+	// TwoStops: Stop() is called from two threads at the same moment (shutdown hook + signal handler)
+	TwoStops bool `json:"two_stops"`
+	// Timed: Stop()'s duration in virtual time is bounded (only meaningful without schedule deviations: a
+	// deviation may delay the calling thread itself)
+	Timed bool `json:"timed"`
+	// ShortInterval: the check interval (2 s) is shorter than a round with slow failures: a tick is always pending
+	ShortInterval bool `json:"short_interval"`
 }
 
 func init() {
@@ -42,6 +49,10 @@ func init() {
 			return []Instance{
 				{Scenario: "c19_hc", Params: mustJSON(HCParams{Mode: "patterns"}), Bound: 0, Shards: 4},
 				{Scenario: "c19_hc", Params: mustJSON(HCParams{Mode: "stop"}), Bound: b, Shards: 8},
+				{Scenario: "c19_hc", Params: mustJSON(HCParams{Mode: "stop", Timed: true}), Bound: 0, Shards: 2, Note: "default schedule: Stop() returns within the ping time-out (it never waits for a retry wait, the rest of the interval or another round)"},
+				{Scenario: "c19_hc", Params: mustJSON(HCParams{Mode: "stop", SlowFail: true, Timed: true}), Bound: 0, Shards: 2},
+				{Scenario: "c19_hc", Params: mustJSON(HCParams{Mode: "stop", SlowFail: true, TwoStops: true, ShortInterval: true}), Bound: b, Shards: 8, Note: "the same with a check interval shorter than a round (a tick is always pending when the round ends)"},
+				{Scenario: "c19_hc", Params: mustJSON(HCParams{Mode: "stop", SlowFail: true, TwoStops: true}), Bound: b, Shards: 8, Note: "two threads call Stop() at the same moment: once either has returned no ping is issued"},
 				{Scenario: "c19_hc", Params: mustJSON(HCParams{Mode: "stop", SlowFail: true}), Bound: b, Shards: 8, Note: "failing pings take 1.5 s (longer than the retry wait): Stop() while such a ping is in flight"},
 				{Scenario: "c19_hc", Params: mustJSON(HCParams{Mode: "calls"}), Bound: 0},
 				{Scenario: "c13_shutdown", Params: mustJSON(ShutdownParams{Case: "idle", Checkpoint: "auto", Mitigation: true, Health: true, Membership: "static", MaxPoint: 1}), Bound: 0, Note: "the checker as wired into the client: Close() of the client stops it (API disabled, the default of the harness): no ping afterwards, no late fail-stop"},
@@ -99,6 +110,9 @@ func hcMain(p HCParams) {
 	cfg := o.config()
 	cfg.HealthCheck.Disabled = false
 	cfg.HealthCheck.Interval = 10 * time.Second
+	if p.ShortInterval {
+		cfg.HealthCheck.Interval = 2 * time.Second
+	}
 	cfg.HealthCheck.Timeout = 3 * time.Second
 	client := couchbase.NewClient(cfg)
 	if err := client.Connect(); err != nil {
@@ -188,7 +202,33 @@ func hcMain(p HCParams) {
 		vrt.Sleep(stopAt)
 		before := len(pingTimes)
 		rec.stopCalled = true
+		tStop := vrt.NowNanos()
+		var otherReturned int64
+		if p.TwoStops {
+			vrt.GoNamed("second-stopper", func() {
+				hc.Stop()
+				otherReturned = vrt.NowNanos()
+			})
+		}
 		hc.Stop()
+		firstReturn := vrt.NowNanos()
+		// promptly: a Stop() may wait for the ping that is in flight (at most the ping time-out), never for a
+		// retry wait, the rest of the check interval or a further round
+		if took := time.Duration(firstReturn - tStop); p.Timed && took > cfg.HealthCheck.Timeout+500*time.Millisecond {
+			vrt.Failf("Stop() called at %v returned after %v of virtual time (ping time-out %v, check interval %v): it waited for more than the ping in flight", stopAt, took, cfg.HealthCheck.Timeout, cfg.HealthCheck.Interval)
+		}
+		if p.TwoStops {
+			vrt.Quiesce()
+			if otherReturned != 0 && otherReturned < firstReturn {
+				firstReturn = otherReturned
+			}
+			for _, pt := range pingTimes {
+				if pt > firstReturn {
+					vrt.Failf("two concurrent Stop() calls at %v: a ping was issued %v after one of them had returned", stopAt, time.Duration(pt-firstReturn))
+					break
+				}
+			}
+		}
 		vrt.Window(false)
 		// promptness without a wall-clock oracle: Stop may wait for the ping in flight (or one that the
 		// loop had already committed to), but not for retries or further rounds; a Stop that never
